@@ -54,6 +54,10 @@ fn full_span(ts: &impl ToTokens) -> (usize, usize) {
     let mut hi = 0;
     for t in ts.to_token_stream() {
         let (a, b) = span_lines(t.span());
+        // tokens made by quote!/parse_quote! (cfg filter, kept derives) carry the call-site span (1:0-1:0), not a source position
+        if t.span().start().line == 1 && t.span().end().line == 1 && t.span().start().column == 0 && t.span().end().column == 0 {
+            continue;
+        }
         if a > 0 {
             lo = lo.min(a);
         }
